@@ -4,7 +4,7 @@ from model import (dstr, strip, fact_holds, mentions_field, mentions_call, menti
                    const_value, walk)
 from rules import (guarded, calls_to, field_writes, who_may_write, full_range, loops_over,
                    every_iteration_passes, basename, origins, is_var, is_enum, lastname)
-from props.scan_common import (OUTDIRTY, check_prune_recheck, ts_role, ts_comparisons, check_cc, effect_returns,
+from props.scan_common import (OUTDIRTY, check_prune_recheck, check_refresh_validations, ts_role, ts_comparisons, check_cc, effect_returns,
                                effect_assigns, true_succ)
 
 
@@ -258,4 +258,5 @@ def run(ctx):
         mode = dstr(e['args'][1]) if len(e.get('args', [])) > 1 else ''
         ctx.check('C02.W1', 'a' in mode and 'w' not in mode, ow.name, 'log-open-mode', ow.where(e),
                   'the log is opened in append mode (%s): earlier entries survive a reopen' % mode)
-    ctx.floor('C02.W1', 7)
+    check_refresh_validations(ctx, 'C02.W1', prog)
+    ctx.floor('C02.W1', 8)
